@@ -51,6 +51,10 @@ CONFIGS = {
         ('N3-POS', dict(N=3, Kinds={"ea", "eb", "t"}, RootCfg="R1", Axes=set(AXES) - {"attribute"},
                         Tests={"node()", "*"}, Preds={"0", "3", "last()-1", "position()>1"}, ParenPreds={"0", "3", "last()-1", "position()>1"},
                         Preds2=set(), DocSibs=False, NsTests=set())),
+        # E/(axis::test)[n]: a parenthesised step inside a path is numbered in document order (2.0+ parsers)
+        ('N3-PS', dict(N=3, Kinds={"ea", "eb", "t"}, RootCfg="R1", Axes=set(AXES) - {"attribute"},
+                       Tests={"node()", "*"}, Preds=set(), ParenPreds={"step:1", "step:2", "step:last()"},
+                       Preds2=set(), DocSibs=False, NsTests=set())),
         # XPath 2.0 kind tests, processing-instruction with a target, 3.0 braced URI literals
         ('N3-KT', dict(N=3, Kinds={"ea", "eb", "en", "t", "p", "xa", "xn"}, RootCfg="R1",
                        Axes={"self", "child", "attribute", "parent", "ancestor-or-self", "descendant", "descendant-or-self",
@@ -123,7 +127,7 @@ def ns_for(text: str):
     return (NS_DEFAULT, text[:-1]) if text.endswith(DNS_MARK) else (NS, text)
 
 
-V2_MARKS = ('*:', 'element(', 'attribute(', 'document-node(', 'processing-instruction(p', 'processing-instruction(z')
+V2_MARKS = ('/(', '*:', 'element(', 'attribute(', 'document-node(', 'processing-instruction(p', 'processing-instruction(z')
 V3_MARKS = ('Q{', 'namespace-node(')
 
 
@@ -144,6 +148,8 @@ def step_text(action: str, args: tuple) -> str:
         return f'namespace::{args[0]}'
     if action == 'NsParent':
         return f'namespace::{args[0]}/parent::node()'
+    if action == 'ParenStep':
+        return f'({args[0]}::{args[1]})[{args[2][5:]}]'      # args[2] = "step:<pred>"
     if action in ('Step', 'DSlash'):
         return f'{args[0]}::{args[1]}'
     if action in ('StepPred', 'DSlashPred'):
@@ -195,7 +201,7 @@ def extend(prefix: str, action: str, args: tuple, root_cfg: str, last: str | Non
     for pre in alts:
         if action == 'Paren':
             out.append(f'({pre or "."})[{args[0]}]')
-        elif action in ('Step', 'StepPred', 'StepPred2', 'NsStep', 'NsParent'):
+        elif action in ('Step', 'StepPred', 'StepPred2', 'NsStep', 'NsParent', 'ParenStep'):
             if pre == '':
                 out += [s, './' + s]
             elif pre == '/':
@@ -407,7 +413,7 @@ def tree_worker(job):
                                     'extra' if set(map(str, obs)) > set(map(str, expected)) else 'wrong')
                                 feat = dict(action=action, axis=('namespace' if action == 'NsParent' else args[0]) if action not in ('Paren', 'Root') else None,
                                             test=(args[0] if action == 'NsParent' else args[1]) if action not in ('Paren', 'Root') else None,
-                                            pred=(args[2] if action.endswith(('Pred', 'Pred2')) else args[0] if action == 'Paren' else None),
+                                            pred=(args[2] if action.endswith(('Pred', 'Pred2')) or action == 'ParenStep' else args[0] if action == 'Paren' else None),
                                             pred2=(args[3] if action == 'StepPred2' else None),
                                             ctx_kinds=kinds_of(kind, src), ctx_multi=len(src) > 1,
                                             ctx_has_attr=any(n and kind[n - 1] in ('xa', 'xc', 'xn') for n in src),
